@@ -14,12 +14,13 @@ CONSTANTS T,          \* time horizon 0..T
           MaxApi,     \* number of api tokens that may be issued
           MaxKeys,    \* keys per usage
           MaxCreds,   \* credential ids that may ever exist
+          MaxGrants,  \* OAuth2 grants that may be issued
           VFs, EXs,   \* valid-from / expiry values an administrator may set (None = absent)
           SimDepth    \* behaviours are printed at this length in simulation mode
 
-VARIABLES st, now, toks, pend, hist
-vars == <<st, now, toks, pend, hist>>
-View == <<st, now, toks, pend>>
+VARIABLES st, now, toks, pend, grants, hist
+vars == <<st, now, toks, pend, grants, hist>>
+View == <<st, now, toks, pend, grants>>
 
 \* value sets for VFs / EXs (cfg files cannot write -1)
 OnlyNone == {None}
@@ -50,11 +51,11 @@ Init ==
                                          o2 |-> <<>>, creds |-> <<"c1">>]],
            keys  |-> (EsKey(1) :> [st |-> "valid", u |-> "es256", vf |-> None]) @@
                      (HsKey(1) :> [st |-> "valid", u |-> "hs256", vf |-> None])]
-  /\ now = 0 /\ toks = {} /\ pend = {} /\ hist = <<>>
+  /\ now = 0 /\ toks = {} /\ pend = {} /\ grants = {} /\ hist = <<>>
 
 Log(e) == hist' = Append(hist, e)
 
-Tick == /\ now < T /\ now' = now + 1 /\ UNCHANGED <<st, toks, pend>> /\ Log([a |-> "tick"])
+Tick == /\ now < T /\ now' = now + 1 /\ UNCHANGED <<st, toks, pend, grants>> /\ Log([a |-> "tick"])
 
 \* interactive login with credential c: token signed now, session record queued (not yet written)
 Login(c) ==
@@ -66,13 +67,13 @@ Login(c) ==
                  kid |-> Signer("es256"), anon |-> FALSE, compact |-> FALSE]
      IN  /\ toks' = toks \cup {tk}
          /\ pend' = pend \cup {[sid |-> sid, exp |-> now + SessLen, cred |-> c]}
-  /\ UNCHANGED <<st, now>> /\ Log([a |-> "login", c |-> c])
+  /\ UNCHANGED <<st, now, grants>> /\ Log([a |-> "login", c |-> c])
 
 \* the delayed AuthSessionRecord is applied (any later time, any order)
 Apply(r) ==
   /\ pend' = pend \ {r}
   /\ st' = IF Exists THEN SetA(DoApply(A, r.sid, r.exp, r.cred, now)) ELSE st
-  /\ UNCHANGED <<now, toks>> /\ Log([a |-> "apply", s |-> r.sid])
+  /\ UNCHANGED <<now, toks, grants>> /\ Log([a |-> "apply", s |-> r.sid])
 
 ApiIssue(expiring, cmp) ==
   /\ Exists /\ Cardinality({tk \in toks : tk.kind = "api"}) < MaxApi
@@ -83,17 +84,17 @@ ApiIssue(expiring, cmp) ==
                  kid |-> Signer("hs256"), anon |-> FALSE, compact |-> cmp]
      IN  /\ toks' = toks \cup {tk}
          /\ st' = SetA(DoApiAdd(A, sid, e, now))
-  /\ UNCHANGED <<now, pend>> /\ Log([a |-> "apiissue", e |-> expiring, cmp |-> cmp])
+  /\ UNCHANGED <<now, pend, grants>> /\ Log([a |-> "apiissue", e |-> expiring, cmp |-> cmp])
 
 ApiDestroy(s) ==
   /\ Exists /\ s \in DOMAIN A.api
   /\ st' = SetA(DoApiDel(A, s, now))
-  /\ UNCHANGED <<now, toks, pend>> /\ Log([a |-> "apidestroy", s |-> s])
+  /\ UNCHANGED <<now, toks, pend, grants>> /\ Log([a |-> "apidestroy", s |-> s])
 
 Revoke(s) ==
   /\ Exists /\ s \in LiveSess(A)
   /\ st' = SetA(DoRevoke(A, s, now))
-  /\ UNCHANGED <<now, toks, pend>> /\ Log([a |-> "revoke", s |-> s])
+  /\ UNCHANGED <<now, toks, pend, grants>> /\ Log([a |-> "revoke", s |-> s])
 
 \* credential changes (credential-update session commit, or administrative purge): a credential is
 \* removed, a NEW one (fresh id) is added, or one is replaced by a new one in a single change
@@ -103,20 +104,20 @@ FreshCred == "c" \o ToString(Cardinality(EverCreds \cup {"c1"}) + 1)
 RemoveCred(c) ==
   /\ Exists /\ c \in CredsOf(A)
   /\ st' = SetA(DoSetCreds(A, Without(A.creds, c), now))
-  /\ UNCHANGED <<now, toks, pend>> /\ Log([a |-> "credremove", c |-> c])
+  /\ UNCHANGED <<now, toks, pend, grants>> /\ Log([a |-> "credremove", c |-> c])
 AddCred ==
   /\ Exists /\ Len(A.creds) < 2 /\ Cardinality(EverCreds \cup {"c1"}) < MaxCreds
   /\ st' = SetA(DoSetCreds(A, Append(A.creds, FreshCred), now))
-  /\ UNCHANGED <<now, toks, pend>> /\ Log([a |-> "credadd"])
+  /\ UNCHANGED <<now, toks, pend, grants>> /\ Log([a |-> "credadd"])
 ReplaceCred(c) ==
   /\ Exists /\ c \in CredsOf(A) /\ Cardinality(EverCreds \cup {"c1"}) < MaxCreds
   /\ st' = SetA(DoSetCreds(A, Append(Without(A.creds, c), FreshCred), now))
-  /\ UNCHANGED <<now, toks, pend>> /\ Log([a |-> "credreplace", c |-> c])
+  /\ UNCHANGED <<now, toks, pend, grants>> /\ Log([a |-> "credreplace", c |-> c])
 
 SetValid(vf, ex) ==
   /\ Exists /\ (A.vf # vf \/ A.ex # ex)
   /\ st' = SetA(DoSetValid(A, vf, ex, now))
-  /\ UNCHANGED <<now, toks, pend>> /\ Log([a |-> "setvalid", vf |-> vf, ex |-> ex])
+  /\ UNCHANGED <<now, toks, pend, grants>> /\ Log([a |-> "setvalid", vf |-> vf, ex |-> ex])
 
 \* key_action_rotate at now: one new key per usage; key_action_revoke of one key (the plugin's
 \* assert step re-creates a valid_from = 0 key when none is left for time 0)
@@ -125,7 +126,7 @@ Rotate ==
   /\ LET n == Cardinality(KeysOf("es256")) + 1
      IN st' = [st EXCEPT !.keys = (EsKey(n) :> [st |-> "valid", u |-> "es256", vf |-> now]) @@
                                    (HsKey(n) :> [st |-> "valid", u |-> "hs256", vf |-> now]) @@ st.keys]
-  /\ UNCHANGED <<now, toks, pend>> /\ Log([a |-> "keyrotate"])
+  /\ UNCHANGED <<now, toks, pend, grants>> /\ Log([a |-> "keyrotate"])
 KeyRevoke(k) ==
   /\ st.keys[k].st = "valid"
   /\ k \in {tk.kid : tk \in toks}          \* revoking a key that signed nothing is a renaming
@@ -136,12 +137,29 @@ KeyRevoke(k) ==
          nk == IF u = "es256" THEN EsKey(n) ELSE HsKey(n)
      IN  /\ (base = {} => n <= MaxKeys + 1)
          /\ st' = [st EXCEPT !.keys = IF base = {} THEN (nk :> [st |-> "valid", u |-> u, vf |-> None]) @@ k1 ELSE k1]
-  /\ UNCHANGED <<now, toks, pend>> /\ Log([a |-> "keyrevoke", k |-> k])
+  /\ UNCHANGED <<now, toks, pend, grants>> /\ Log([a |-> "keyrevoke", k |-> k])
+
+\* OAuth2: the user behind an accepted login token authorises a client; the grant's session is a child
+\* of the login session.  Refresh re-issues the access token (new iat) and modifies the account.
+Oid(n) == "o" \o ToString(n)
+O2Grant(tk) ==
+  /\ Exists /\ tk.kind = "uat" /\ L2Present(tk, st, now) = "ok" /\ Cardinality(grants) < MaxGrants
+  /\ LET oid == Oid(Cardinality(grants) + 1)
+         rec == [st |-> "exp", exp |-> now + SessLen + 2, iat |-> now, parent |-> tk.sid]
+         a1  == [A EXCEPT !.o2 = [o \in DOMAIN A.o2 \cup {oid} |-> IF o = oid THEN rec ELSE A.o2[o]]]
+     IN  /\ st' = SetA(Plugin(a1, now))
+         /\ grants' = grants \cup {[acct |-> Acct, oid |-> oid, parent |-> tk.sid, iat |-> now]}
+  /\ UNCHANGED <<now, toks, pend>> /\ Log([a |-> "o2grant", s |-> tk.sid])
+O2Refresh(g) ==
+  /\ L2O2Active(g, st, now) = "active" /\ g.iat < now
+  /\ st' = SetA(Plugin(A, now))
+  /\ grants' = (grants \ {g}) \cup {[g EXCEPT !.iat = now]}
+  /\ UNCHANGED <<now, toks, pend>> /\ Log([a |-> "o2refresh", o |-> g.oid])
 
 Delete ==
   /\ Exists
   /\ st' = [st EXCEPT !.accts = <<>>]
-  /\ UNCHANGED <<now, toks, pend>> /\ Log([a |-> "delete"])
+  /\ UNCHANGED <<now, toks, pend, grants>> /\ Log([a |-> "delete"])
 
 Next ==
   \/ Tick
@@ -154,11 +172,15 @@ Next ==
   \/ Rotate
   \/ \E k \in DOMAIN st.keys : KeyRevoke(k)
   \/ Delete
+  \/ \E tk \in toks : O2Grant(tk)
+  \/ \E g \in grants : O2Refresh(g)
 
 Spec == Init /\ [][Next]_vars
 
 \* ---- L2 meets L1 (C32): whatever the transcription accepts satisfies the property
 InvC32 == \A tk \in toks : L1PresentOk(tk, st, now, L2Present(tk, st, now))
+\* ---- L2 meets L1 (C36, OAuth2): a grant found usable after its grace window has a live parent session
+InvO2 == \A g \in grants : L1O2Usable(g, st, now, L2O2Active(g, st, now))
 \* ---- L2 meets L1 (C36): action property over every step
 StepC36 == (Acct \in DOMAIN st.accts /\ Acct \in DOMAIN st'.accts) =>
               L1CredRemoval(st.accts[Acct], st'.accts[Acct])
